@@ -4,6 +4,7 @@ import (
 	"bytes"
 	"fmt"
 	"regexp"
+	"sort"
 	"strings"
 	"unicode"
 	"unicode/utf8"
@@ -123,6 +124,28 @@ func (f *File) ImportNames(names map[string]string) {
 // period can be used to force a dot-import.
 func (f *File) ImportAlias(path, alias string) {
 	f.hints[path] = importdef{name: alias, alias: true}
+}
+
+// scratch returns a copy of the file whose import table can be changed without affecting f.
+func (f *File) scratch() *File {
+	c := *f
+	c.imports = map[string]importdef{}
+	for path, def := range f.imports {
+		c.imports[path] = def
+	}
+	return &c
+}
+
+// added lists, in a fixed order, the imports registered in f but not in orig.
+func (f *File) added(orig *File) string {
+	var added []string
+	for path, def := range f.imports {
+		if _, ok := orig.imports[path]; !ok {
+			added = append(added, fmt.Sprintf("%q=%s", path, def.name))
+		}
+	}
+	sort.Strings(added)
+	return strings.Join(added, ",")
 }
 
 func (f *File) isLocal(path string) bool {
